@@ -67,16 +67,18 @@ Lemma slash_shape cfg s r s1 :
                 (c_svc rc, r_prov q) b2).
 Proof.
   unfold slash. intros H. inv_ok H.
-  rename a into q, a0 into rc, a1 into b, a2 into sb.
+  rename a into q, a0 into rc, a1 into b, a2 into sb, a3 into b2.
   apply burn_some in Ha2. destruct Ha2 as (H0 & Hle & ->). b2p.
   set (amt := mul_trunc (b_deposit b) (p_slash cfg)) in *.
   set (b1 := setb_deposit b (b_deposit b - amt)) in *.
-  destruct (b_avail b1) eqn:Eav.
-  - inv_ok H. subst s1.
-    match goal with |- context [put_binding _ _ ?bb] => exists q, rc, b, amt, bb end.
-    repeat split; try assumption; try reflexivity.
-    all: destruct (b_deposit b1 <? a); reflexivity.
-  - inv_ok H. subst s1. exists q, rc, b, amt, b1. repeat split; try assumption; reflexivity.
+  subst s1. exists q, rc, b, amt, b2.
+  assert (Hb2 : b_deposit b2 = b_deposit b - amt /\ b_owner b2 = b_owner b /\ b_raw b2 = b_raw b /\ b_qos b2 = b_qos b).
+  { destruct (b_avail b1) eqn:Eav.
+    - inv_ok Ha3. subst b2.
+      match goal with |- context [if ?c then _ else _] => destruct c end; repeat split.
+    - inv_ok Ha3. subst b2. repeat split. }
+  destruct Hb2 as (? & ? & ? & ?).
+  repeat split; try assumption; try reflexivity.
 Qed.
 
 Lemma refund_shape s r cons fee s1 :
@@ -138,4 +140,322 @@ Lemma msum_fee_deactivate s r q :
 Proof.
   intros G. rewrite deactivate_reqs, G, msum_set. unfold fget. rewrite G.
   unfold fee_active at 3. cbn [r_active setr_active]. lia.
+Qed.
+
+Lemma add_earned_shape cfg s r prov fee s1 :
+  add_earned_fee cfg s r prov fee = Ok s1 ->
+  exists o s0,
+    let tax := mul_trunc fee (p_tax cfg) in
+    transfer Escrow FeeColl tax s = Some s0 /\ tax <= fee
+    /\ get prov (owner_of s) = Some o
+    /\ s1 = emit (EvEarn r prov (fee - tax)) (emit (EvTax r tax)
+              (set_own_earned (set_earned (set_bank s (bank s0)) (add_to prov (fee - tax) (earned s)))
+                 (add_to o (fee - tax) (own_earned s)))).
+Proof.
+  unfold add_earned_fee. intros H. inv_ok H. b2p.
+  pose proof (transfer_frame _ _ _ _ _ Ha) as Hf.
+  sproj. rewrite Hf in H. sproj.
+  destruct (get prov (owner_of s)) as [o|] eqn:Eo; inv_ok H.
+  exists o, a. cbv zeta. repeat split; try assumption. now subst s1.
+Qed.
+
+(* what the tail of h_respond does to the fields the money invariants read *)
+Lemma complete_batch_frame s c rc :
+  let s1 := fst (complete_batch s c rc) in
+  reqs s1 = reqs s /\ resps s1 = resps s /\ earned s1 = earned s /\ own_earned s1 = own_earned s
+  /\ bank s1 = bank s /\ supply s1 = supply s /\ ctxs s1 = ctxs s /\ binds s1 = binds s
+  /\ expq s1 = expq s /\ expq_h s1 = expq_h s /\ newq s1 = newq s /\ newq_h s1 = newq_h s
+  /\ vols s1 = vols s /\ owner_of s1 = owner_of s /\ pricing s1 = pricing s
+  /\ height s1 = height s /\ time s1 = time s.
+Proof.
+  unfold complete_batch, callback. cbn [fst].
+  destruct (c_mod rc =? 0); [repeat split|].
+  destruct (get c (ctxs s)); repeat split.
+Qed.
+
+Lemma resp_tail_money s1 r who rc0 code out c rc :
+  let s' := resp_finish (resp_mid s1 r who rc0 code out) c rc in
+  reqs s' = reqs (deactivate s1 r) /\ earned s' = earned s1 /\ own_earned s' = own_earned s1
+  /\ bank s' = bank s1 /\ supply s' = supply s1 /\ binds s' = binds s1.
+Proof.
+  cbv zeta. unfold resp_finish.
+  set (sm := resp_mid s1 r who rc0 code out).
+  assert (Hm : reqs sm = reqs (deactivate s1 r) /\ earned sm = earned s1 /\ own_earned sm = own_earned s1
+               /\ bank sm = bank s1 /\ supply sm = supply s1 /\ binds sm = binds s1).
+  { unfold sm, resp_mid. sproj. unfold deactivate. sproj.
+    destruct (get r (reqs s1)); sproj; repeat split. }
+  destruct Hm as (M1 & M2 & M3 & M4 & M5 & M6).
+  destruct (c_bresp (setc_bresp rc (c_bresp rc + 1)) =? c_breq (setc_bresp rc (c_bresp rc + 1))).
+  - pose proof (complete_batch_frame sm c (setc_bresp rc (c_bresp rc + 1))) as F. cbv zeta in F.
+    destruct F as (F1 & _ & F3 & F4 & F5 & F6 & _ & F8 & _). sproj.
+    rewrite F1, F3, F4, F5, F6, F8. repeat split; assumption.
+  - sproj. repeat split; assumption.
+Qed.
+
+(* ---------- expire_req ---------- *)
+
+Definition deact (q : Req) : Req := setr_active q false.
+
+Lemma same_req_core_trans a b c : same_req_core a b -> same_req_core b c -> same_req_core a c.
+Proof.
+  unfold same_req_core. intros H1 H2.
+  repeat match goal with H : _ /\ _ |- _ => destruct H end.
+  repeat split; congruence.
+Qed.
+
+(* the settlement part of expire_req (before the markers are deleted) *)
+Definition expire_settle (cfg : Params) (s : State) (r : ReqId) (q : Req) (rc : Ctx) : State :=
+  if c_super rc then s
+  else
+    let sa := match slash cfg s r with Ok x => x | _ => s end in
+    match refund_fee sa r (c_cons rc) (r_fee q) with Some x => x | None => sa end.
+
+Lemma expire_req_unfold cfg s r q rc :
+  get r (reqs s) = Some q -> get (rid_ctx r) (ctxs s) = Some rc ->
+  expire_req cfg s r = emit (EvExpire r) (deactivate (expire_settle cfg s r q rc) r).
+Proof. intros G1 G2. unfold expire_req, expire_settle. now rewrite G1, G2. Qed.
+
+Lemma expire_req_skip cfg s r :
+  get r (reqs s) = None \/ get (rid_ctx r) (ctxs s) = None -> expire_req cfg s r = s.
+Proof.
+  unfold expire_req. intros [G|G]; rewrite G; [reflexivity|]. now destruct (get r (reqs s)).
+Qed.
+
+Lemma expire_settle_core cfg s r q rc : same_req_core s (expire_settle cfg s r q rc).
+Proof.
+  unfold expire_settle. destruct (c_super rc); [apply same_req_core_refl|].
+  assert (H1 : same_req_core s (match slash cfg s r with Ok x => x | _ => s end)).
+  { destruct (slash cfg s r) eqn:Es; try apply same_req_core_refl. eapply slash_core; eauto. }
+  destruct (refund_fee _ r (c_cons rc) (r_fee q)) eqn:Er; [|exact H1].
+  eapply same_req_core_trans; [exact H1|]. eapply refund_core; eauto.
+Qed.
+
+Lemma expire_req_reqs cfg s r :
+  reqs (expire_req cfg s r) =
+  match get r (reqs s), get (rid_ctx r) (ctxs s) with
+  | Some q, Some _ => set r (deact q) (reqs s)
+  | _, _ => reqs s
+  end.
+Proof.
+  destruct (get r (reqs s)) as [q|] eqn:G1; [|now rewrite expire_req_skip by auto].
+  destruct (get (rid_ctx r) (ctxs s)) as [rc|] eqn:G2; [|now rewrite expire_req_skip by auto].
+  rewrite (expire_req_unfold _ _ _ _ _ G1 G2). sproj.
+  pose proof (expire_settle_core cfg s r q rc) as (C1 & _).
+  rewrite deactivate_reqs, C1, G1. reflexivity.
+Qed.
+
+Lemma expire_req_core cfg s r :
+  let s' := expire_req cfg s r in
+  resps s' = resps s /\ ctxs s' = ctxs s /\ earned s' = earned s /\ own_earned s' = own_earned s
+  /\ expq s' = expq s /\ expq_h s' = expq_h s /\ newq s' = newq s /\ newq_h s' = newq_h s
+  /\ owner_of s' = owner_of s /\ height s' = height s /\ time s' = time s /\ vols s' = vols s
+  /\ pricing s' = pricing s /\ defs s' = defs s.
+Proof.
+  cbv zeta.
+  destruct (get r (reqs s)) as [q|] eqn:G1; [|rewrite expire_req_skip by auto; repeat split].
+  destruct (get (rid_ctx r) (ctxs s)) as [rc|] eqn:G2; [|rewrite expire_req_skip by auto; repeat split].
+  rewrite (expire_req_unfold _ _ _ _ _ G1 G2).
+  pose proof (expire_settle_core cfg s r q rc) as C. unfold same_req_core in C.
+  repeat match goal with H : _ /\ _ |- _ => destruct H end.
+  rewrite deactivate_other. sproj. repeat split; assumption.
+Qed.
+
+(* folding expire_req over a duplicate-free list deactivates exactly its members *)
+Lemma fold_expire_core cfg l s :
+  let s' := fold_left (expire_req cfg) l s in
+  resps s' = resps s /\ ctxs s' = ctxs s /\ earned s' = earned s /\ own_earned s' = own_earned s
+  /\ expq s' = expq s /\ expq_h s' = expq_h s /\ newq s' = newq s /\ newq_h s' = newq_h s
+  /\ owner_of s' = owner_of s /\ height s' = height s /\ time s' = time s /\ vols s' = vols s
+  /\ pricing s' = pricing s /\ defs s' = defs s.
+Proof.
+  cbv zeta. revert s. induction l as [|r l IH]; intros s; cbn [fold_left]; [repeat split|].
+  specialize (IH (expire_req cfg s r)).
+  pose proof (expire_req_core cfg s r) as C. cbv zeta in C.
+  repeat match goal with H : _ /\ _ |- _ => destruct H end.
+  repeat split; congruence.
+Qed.
+
+Lemma fold_expire_reqs cfg l s :
+  wf (reqs s) ->
+  (forall r, In r l -> exists rc, get (rid_ctx r) (ctxs s) = Some rc) ->
+  wf (reqs (fold_left (expire_req cfg) l s))
+  /\ forall r, get r (reqs (fold_left (expire_req cfg) l s))
+       = if mem r l then option_map deact (get r (reqs s)) else get r (reqs s).
+Proof.
+  revert s. induction l as [|a l IH]; intros s Hw Hc; cbn [fold_left mem]; [auto|].
+  assert (Hw1 : wf (reqs (expire_req cfg s a))).
+  { rewrite expire_req_reqs. destruct (get a (reqs s)); [|assumption].
+    destruct (get (rid_ctx a) (ctxs s)); [now apply wf_set|assumption]. }
+  assert (Hc1 : forall r, In r l -> exists rc, get (rid_ctx r) (ctxs (expire_req cfg s a)) = Some rc).
+  { intros r Hr. pose proof (expire_req_core cfg s a) as (_ & C2 & _). rewrite C2. apply Hc. now right. }
+  destruct (IH _ Hw1 Hc1) as (Hw2 & Hg). split; [assumption|].
+  intros r. rewrite Hg. rewrite expire_req_reqs.
+  destruct (Hc a (or_introl eq_refl)) as (rca & Grc). rewrite Grc.
+  destruct (eqb_spec r a) as [->|Hne].
+  - destruct (get a (reqs s)) as [q|] eqn:G.
+    + rewrite get_set_eq. destruct (mem a l); reflexivity.
+    + rewrite G. destruct (mem a l); reflexivity.
+  - destruct (get a (reqs s)) as [q|] eqn:G; [rewrite get_set_neq by assumption|]; reflexivity.
+Qed.
+
+(* ---------- request id lists of a batch ---------- *)
+
+Lemma NoDup_map_fst_filter {K V} (f : K * V -> bool) (m : list (K * V)) :
+  NoDup (map fst m) -> NoDup (map fst (filter f m)).
+Proof.
+  induction m as [|[k v] t IH]; cbn [map filter fst]; intros Hn; [constructor|].
+  inversion Hn as [|? ? Hni Hn']; subst.
+  destruct (f (k, v)); [|auto]. cbn [map fst]. constructor; [|auto].
+  intros Hin. apply Hni. apply in_map_iff in Hin. destruct Hin as ([k' v'] & E & Hin).
+  cbn [fst] in E. subst k'. apply filter_In in Hin. destruct Hin as [Hin _].
+  apply in_map_iff. exists (k, v'). auto.
+Qed.
+
+Lemma in_batch_spec c n r : in_batch c n r = true <-> rid_ctx r = c /\ rid_batch r = n.
+Proof.
+  unfold in_batch. rewrite andb_true_iff, Z.eqb_eq. rewrite (eqb_eq (rid_ctx r) c). tauto.
+Qed.
+
+Lemma In_active_rids s c n r :
+  wf (reqs s) ->
+  In r (active_rids s c n) <->
+  exists q, get r (reqs s) = Some q /\ rid_ctx r = c /\ rid_batch r = n /\ r_active q = true.
+Proof.
+  intros Hw. unfold active_rids. rewrite isort_In, in_map_iff. split.
+  - intros ([r' q] & E & Hin). cbn [fst] in E. subst r'. apply filter_In in Hin.
+    destruct Hin as [Hin Hf]. cbn [fst snd] in Hf. apply andb_prop in Hf. destruct Hf as [Hb Ha].
+    apply in_batch_spec in Hb. exists q. split; [now apply In_get|tauto].
+  - intros (q & G & Hc & Hb & Ha). exists (r, q). split; [reflexivity|].
+    apply filter_In. split; [now apply get_In|]. cbn [fst snd].
+    apply andb_true_intro. split; [apply in_batch_spec; tauto|assumption].
+Qed.
+
+Lemma NoDup_active_rids s c n : wf (reqs s) -> NoDup (active_rids s c n).
+Proof. intros Hw. unfold active_rids. apply isort_NoDup. now apply NoDup_map_fst_filter. Qed.
+
+Lemma In_batch_rids s c n r :
+  In r (batch_rids s c n) <-> In r (keys (reqs s)) /\ rid_ctx r = c /\ rid_batch r = n.
+Proof.
+  unfold batch_rids. rewrite isort_In, filter_In, in_batch_spec. tauto.
+Qed.
+
+Lemma clean_batch_fields s c n :
+  let s' := clean_batch s c n in
+  reqs s' = fold_left (fun m r => del r m) (batch_rids s c n) (reqs s)
+  /\ resps s' = fold_left (fun m r => del r m) (batch_rids s c n) (resps s)
+  /\ s' = set_resps (set_reqs s (reqs s')) (resps s').
+Proof. unfold clean_batch. sproj. repeat split. Qed.
+
+(* ---------- issuing requests ---------- *)
+
+Definition fee_of (s : State) (rc : Ctx) (prov : Z) : Z :=
+  if c_super rc then 0
+  else get_price (pricing_of s (c_svc rc, prov)) (time s) (vol_of s (c_cons rc) (c_svc rc) prov).
+
+Definition new_req (s : State) (rc : Ctx) (prov : Z) : Req :=
+  mkReq prov (fee_of s rc prov) (height s + c_timeout rc) true.
+
+Lemma issue_one_eq s c rc n i prov :
+  issue_one s c rc n i prov =
+  emit (EvIssue (c, n, height s, i) prov (c_cons rc) (fee_of s rc prov))
+    (set_reqs s (set (c, n, height s, i) (new_req s rc prov) (reqs s))).
+Proof. reflexivity. Qed.
+
+(* fields issue_all leaves alone *)
+Definition same_but_reqs (s s1 : State) : Prop :=
+  height s1 = height s /\ time s1 = time s /\ defs s1 = defs s /\ binds s1 = binds s
+  /\ pricing s1 = pricing s /\ owner_of s1 = owner_of s /\ own_prov s1 = own_prov s
+  /\ own_bind s1 = own_bind s /\ wdaddr s1 = wdaddr s /\ ctxs s1 = ctxs s
+  /\ expq s1 = expq s /\ expq_h s1 = expq_h s /\ newq s1 = newq s /\ newq_h s1 = newq_h s
+  /\ resps s1 = resps s /\ vols s1 = vols s /\ earned s1 = earned s
+  /\ own_earned s1 = own_earned s /\ bank s1 = bank s /\ supply s1 = supply s.
+
+Lemma issue_one_frame s c rc n i prov : same_but_reqs s (issue_one s c rc n i prov).
+Proof. rewrite issue_one_eq. unfold same_but_reqs. sproj. repeat split. Qed.
+
+Lemma new_req_stable s s1 rc prov :
+  height s1 = height s -> time s1 = time s -> pricing s1 = pricing s -> vols s1 = vols s ->
+  new_req s1 rc prov = new_req s rc prov.
+Proof.
+  intros H1 H2 H3 H4. unfold new_req, fee_of, pricing_of, vol_of. now rewrite H1, H2, H3, H4.
+Qed.
+
+Lemma issue_all_frame s c rc n i provs : same_but_reqs s (issue_all s c rc n i provs).
+Proof.
+  revert s i. induction provs as [|p t IH]; intros s i; cbn [issue_all].
+  - unfold same_but_reqs. repeat split.
+  - specialize (IH (issue_one s c rc n i p) (i + 1)).
+    pose proof (issue_one_frame s c rc n i p) as F. unfold same_but_reqs in *.
+    repeat match goal with H : _ /\ _ |- _ => destruct H end.
+    repeat split; congruence.
+Qed.
+
+Fixpoint sum_new (f : ReqId -> Req -> Z) (s : State) (c : CtxId) (rc : Ctx) (n i : Z) (provs : list Z) : Z :=
+  match provs with
+  | [] => 0
+  | p :: t => f (c, n, height s, i) (new_req s rc p) + sum_new f s c rc n (i + 1) t
+  end.
+
+Lemma sum_new_stable f s s1 c rc n i provs :
+  height s1 = height s -> time s1 = time s -> pricing s1 = pricing s -> vols s1 = vols s ->
+  sum_new f s1 c rc n i provs = sum_new f s c rc n i provs.
+Proof.
+  intros H1 H2 H3 H4. revert i. induction provs as [|p t IH]; intros i; cbn [sum_new]; [reflexivity|].
+  rewrite IH, H1. now rewrite (new_req_stable s s1) by assumption.
+Qed.
+
+Lemma rid_neq_index (c : CtxId) (n h i j : Z) : i <> j -> ((c, n, h, i) : ReqId) <> (c, n, h, j).
+Proof. congruence. Qed.
+
+Lemma issue_all_reqs f s c rc n i provs :
+  wf (reqs s) ->
+  (forall j, i <= j -> get (c, n, height s, j) (reqs s) = None) ->
+  wf (reqs (issue_all s c rc n i provs))
+  /\ msum f (reqs (issue_all s c rc n i provs)) = msum f (reqs s) + sum_new f s c rc n i provs
+  /\ (forall r, rid_ctx r <> c -> get r (reqs (issue_all s c rc n i provs)) = get r (reqs s)).
+Proof.
+  revert s i. induction provs as [|p t IH]; intros s i Hw Hfresh; cbn [issue_all sum_new].
+  - split; [assumption|]. split; [lia|reflexivity].
+  - set (s1 := issue_one s c rc n i p).
+    pose proof (issue_one_frame s c rc n i p) as F. fold s1 in F.
+    destruct F as (F1 & F2 & _ & _ & F5 & _ & _ & _ & _ & _ & _ & _ & _ & _ & _ & F16 & _).
+    assert (R1 : reqs s1 = set (c, n, height s, i) (new_req s rc p) (reqs s)) by reflexivity.
+    assert (Hw1 : wf (reqs s1)) by (rewrite R1; now apply wf_set).
+    assert (Hf1 : forall j, i + 1 <= j -> get (c, n, height s1, j) (reqs s1) = None).
+    { intros j Hj. rewrite F1, R1. rewrite get_set_neq; [apply Hfresh; lia|].
+      apply rid_neq_index. lia. }
+    destruct (IH s1 (i + 1) Hw1 Hf1) as (W & S & O).
+    split; [assumption|]. split.
+    + rewrite S, R1, msum_set. unfold fget.
+      match goal with |- context [match ?g with Some _ => _ | None => _ end] =>
+        replace g with (@None Req) by (symmetry; apply Hfresh; lia) end.
+      rewrite (sum_new_stable f s s1) by assumption. lia.
+    + intros r Hr. rewrite O by assumption. rewrite R1. apply get_set_neq.
+      intros ->. apply Hr. reflexivity.
+Qed.
+
+Lemma filter_providers_sum s rc provs :
+  sum_prices (filter_providers s rc provs)
+  = fold_right (fun p a =>
+      exchanged_price (pricing_of s (c_svc rc, p)) (time s) (vol_of s (c_cons rc) (c_svc rc) p) + a)
+      0 (map fst (filter_providers s rc provs)).
+Proof.
+  induction provs as [|p t IH]; cbn [filter_providers]; [reflexivity|].
+  destruct (eligible s rc p) as [price|] eqn:E; [|exact IH].
+  cbn [sum_prices fold_right map fst snd]. fold (sum_prices (filter_providers s rc t)). rewrite IH.
+  unfold eligible in E. destruct (get (c_svc rc, p) (binds s)) as [b|]; [|discriminate].
+  destruct (b_avail b && (b_qos b <=? c_timeout rc)); [|discriminate].
+  destruct (_ <=? c_cap rc); [|discriminate]. injection E as <-. reflexivity.
+Qed.
+
+Lemma sum_new_fee s c rc n i provs :
+  sum_new fee_active s c rc n i provs
+  = if c_super rc then 0
+    else fold_right (fun p a =>
+      get_price (pricing_of s (c_svc rc, p)) (time s) (vol_of s (c_cons rc) (c_svc rc) p) + a) 0 provs.
+Proof.
+  revert i. induction provs as [|p t IH]; intros i; cbn [sum_new fold_right].
+  - now destruct (c_super rc).
+  - rewrite IH. unfold fee_active, new_req, fee_of. cbn [r_active r_fee].
+    destruct (c_super rc); lia.
 Qed.
